@@ -221,6 +221,11 @@ fn make_crypto_reader<'a>(
         if let CompressionMethod::Unsupported(_) = compression_method {
             return unsupported_zip_error("Compression method not supported");
         }
+        // The AES pseudo-method is replaced by the real method while parsing the AES extra
+        // field; if it is still present here there is nothing that could decode the entry.
+        if compression_method == CompressionMethod::AES {
+            return unsupported_zip_error("Compression method not supported");
+        }
     }
 
     let reader = match (password, aes_info) {
